@@ -314,7 +314,7 @@ func TestCheck(t *testing.T) {
 	}
 
 	// -- codec round trip --
-	nCodec := r.N(3000, 300000)
+	nCodec := r.N(3000, 1500000)
 	r.Parallel("codec", nCodec, func(i int, rng *mrand.Rand) {
 		spec := genSpec(rng, i)
 		c := specJSON(spec)
@@ -377,7 +377,7 @@ func TestCheck(t *testing.T) {
 	}
 
 	// -- lists --
-	nList := r.N(600, 60000)
+	nList := r.N(600, 300000)
 	r.Parallel("list", nList, func(i int, rng *mrand.Rand) {
 		n := i % 9
 		var cfgs []ech.Config
@@ -430,7 +430,7 @@ func TestCheck(t *testing.T) {
 	})
 
 	// -- NewConfig --
-	nNew := r.N(512, 20000)
+	nNew := r.N(512, 60000)
 	r.Parallel("newconfig", nNew, func(i int, rng *mrand.Rand) {
 		id := uint8(i)
 		nl := 1 + (i*7+i/256)%255
@@ -485,7 +485,7 @@ func TestCheck(t *testing.T) {
 	})
 
 	// -- live crypto/tls handshakes --
-	nHS := r.N(300, 10000)
+	nHS := r.N(300, 40000)
 	r.Parallel("handshake", nHS, func(i int, rng *mrand.Rand) {
 		// name lengths 3..253 all covered in quick (251 values), forced edge values first
 		nl := 3 + i%251
@@ -557,7 +557,7 @@ func TestCheck(t *testing.T) {
 	r.Floor("handshakes_ech_accepted", int64(nHS)*9/10)
 
 	// -- parser robustness: truncations, mutations, trailing bytes, random --
-	nRob := r.N(60, 1500)
+	nRob := r.N(60, 6000)
 	r.Parallel("robust", nRob, func(i int, rng *mrand.Rand) {
 		n := 1 + i%4
 		var cfgs []ech.Config
